@@ -204,6 +204,11 @@ func (in *Interp) raise(v Value) {
 		in.dieWithStack(t.co, v)
 	}
 	if n := len(t.pstack); n > 0 && t.pstack[n-1].isX && t.pstack[n-1].handler != nil {
+		if t.dying {
+			// the xpcall is itself being unwound by coroutine.close: the manual does
+			// not say whether its message handler still applies
+			unspec("error raised by a __close handler under xpcall while the coroutine is being closed")
+		}
 		if t.closing > 0 && !in.Ext.CloseErrHandled {
 			unspec("error raised by a __close handler under xpcall")
 		}
